@@ -158,6 +158,13 @@ func execDep(vec J, out *Writer) {
 		dirty, _ := dependency.Parse("zzz (>= 9) | yyy, xxx")
 		derr := dirty.UnmarshalControl(text)
 		rec["dirty_control"] = J{"ok": derr == nil, "ast": depJ(dirty)}
+		// a value that was decoded earlier and KEPT (a struct copy) must not change when the same receiver decodes
+		// another field afterwards (a Decoder loop that keeps what it read)
+		var recv dependency.Dependency
+		kerr := recv.UnmarshalControl(text)
+		kept := recv
+		recv.UnmarshalControl("zzz (>= 9) | yyy [sparc] <!cross>, xxx:any, www, ${v:Depends}")
+		rec["kept_after"] = J{"ok": kerr == nil, "ast": depJ(&kept)}
 		if p.ok && p.dep != nil {
 			r := p.dep.String()
 			mc, _ := p.dep.MarshalControl()
